@@ -2,6 +2,7 @@
 Protocol handler for channel Y (track fields); mirror image of harness/impl/track.go.
 
   Y <trackspec> pack <components>            → ok <hex> | err
+  Y <trackspec> packobs <components>         → <pack result> <components read back after Pack, String, Bytes, JSON>
   Y <trackspec> unpack <hex>                 → ok <components> <read> | err | panic
   Y <trackspec> unpack2 <hex1> <hex2>        → <ok|err>; <result of the second Unpack into the same object>
   Y <trackspec> setunpack <components> <hex> → result of Unpack into an object that held <components>
@@ -93,6 +94,15 @@ def handle (toks : List String) : Option String :=
     | some s =>
       match (Tree.ofString val).bind (valOfTree s.kind) with
       | some v => showRes (s.pack v)
+      | none => "bad-op"
+    | none => "bad-op"
+  | ["Y", spec, "packobs", val] =>
+    -- Pack / String / Bytes / JSON encoding are functions of the value in the model: the components
+    -- read back afterwards are the ones that were set
+    some <| match (Tree.ofString spec).bind specOfTree with
+    | some s =>
+      match (Tree.ofString val).bind (valOfTree s.kind) with
+      | some v => showRes (s.pack v) ++ " " ++ (treeOfVal v).toStr
       | none => "bad-op"
     | none => "bad-op"
   | ["Y", spec, "unpack", hex] =>
